@@ -67,9 +67,25 @@ def cat_specs(draw, kinds=("abs", "precomputed", "lev", "ordinal", "numerical"),
     raise ValueError(kind)
 
 
+EXTREME_DELTAS = [1e-8, 1e-6, 1e-3, 1e4]
+
+
+def _rescale(spec, delta):
+    spec = dict(spec)
+    spec["delta"] = delta
+    for key in ("pos", "cat"):
+        if spec.get(key):
+            spec[key] = _rescale(spec[key], delta)
+    return spec
+
+
 @st.composite
 def dissim_specs(draw, kinds=("pos", "abs", "precomputed", "lev", "ordinal", "numerical", "combined"),
-                 equal_delta_only=False, max_cats=6):
+                 equal_delta_only=False, max_cats=6, extreme=False):
+    if extreme and draw(st.integers(0, 11)) == 0:
+        # delta_empty far from 1: every disorder and gamma relation is scale-free
+        base = draw(dissim_specs(kinds=kinds, equal_delta_only=True, max_cats=max_cats))
+        return _rescale(base, draw(st.sampled_from(EXTREME_DELTAS)))
     kind = draw(st.sampled_from(list(kinds)))
     if kind == "pos":
         return {"kind": "pos", "delta": draw(st.sampled_from(DELTAS))}
@@ -229,8 +245,8 @@ def continuum_product(cont):
 
 @st.composite
 def continuum_and_spec(draw, kinds=("pos", "abs", "precomputed", "lev", "ordinal", "numerical", "combined"),
-                       equal_delta_only=False, unlabelled_ratio=0.0, **kw):
-    spec = draw(dissim_specs(kinds=kinds, equal_delta_only=equal_delta_only))
+                       equal_delta_only=False, unlabelled_ratio=0.0, extreme=False, **kw):
+    spec = draw(dissim_specs(kinds=kinds, equal_delta_only=equal_delta_only, extreme=extreme))
     cats = spec_categories(spec)
     unl = False
     if cats is None and unlabelled_ratio > 0:
